@@ -5,3 +5,4 @@ import LemoGen.Gas
 import LemoGen.Net
 import LemoGen.NetCache
 import LemoGen.RlpBounds
+import LemoGen.Pool
